@@ -12,8 +12,10 @@ PLAN = dict(
         quick=[det("rel", H, "cs-rel", 16, 300, 5, tso=True, time_cap=35),
                det("dbg", H, "cs-dbg", 16, 120, 5, tso=True, time_cap=25),
                det("sleepy-enum-sbload", H, "cs-rel", 16, 12, 2, tso=True, time_cap=20, enum="sbload", enum_cap=40, args=["--sleepy"]),
+               det("downgrade-share", H, "cs-rel", 4, 60, 6, tso=True, time_cap=20, args=["--dgshare"]),
                tsan("C08", 8, 300)],
         thorough=[det("rel", H, "cs-rel", 16, 3000, 6, tso=True, time_cap=240),
+                  det("downgrade-share", H, "cs-rel", 8, 600, 8, tso=True, time_cap=60, args=["--dgshare"]),
                   det("dbg", H, "cs-dbg", 16, 1200, 6, tso=True, time_cap=150),
                   det("enum-wake", H, "cs-rel", 16, 150, 2, tso=True, time_cap=90, enum="wake", enum_cap=200),
                   det("enum-sbload", H, "cs-rel", 16, 150, 2, tso=True, time_cap=90, enum="sbload", enum_cap=200),
